@@ -80,7 +80,8 @@ class PCT(Policy):
             self.change[rng.randint(1, est)] = k  # new (low) priority k
 
     def _best(self, runnable):
-        return max(runnable, key=lambda t: self.prio[t])
+        # tasks that appear later (library-started threads) get low, distinct priorities
+        return max(runnable, key=lambda t: self.prio.get(t, -t))
 
     def at_step(self, n, cur, runnable):
         if n in self.change:
@@ -98,10 +99,10 @@ class RunToCompletion(Policy):
         self.rank = {t: i for i, t in enumerate(order)}
 
     def at_done(self, n, cur, runnable):
-        return min(runnable, key=lambda t: self.rank[t])
+        return min(runnable, key=lambda t: self.rank.get(t, 1000 + t))
 
     def first(self, runnable):
-        return min(runnable, key=lambda t: self.rank[t])
+        return min(runnable, key=lambda t: self.rank.get(t, 1000 + t))
 
 
 class Explicit(Policy):
